@@ -236,8 +236,21 @@ func IsInternalMsg(s string) bool {
 	return false
 }
 
+// internalKind separates the internal errors whose wording is implementation-defined into the two kinds a program can
+// tell apart by what it did wrong: it navigated from a value that is not at the current location ("invalid path"), or
+// it applied an operation to a value of the wrong type (everything else).
+func internalKind(msg string) string {
+	if strings.Contains(msg, "invalid path") {
+		return "invalid-path"
+	}
+	return "type"
+}
+
 // DiffOpt tunes SameTrace.
 type DiffOpt struct {
+	// InternalKinds makes two internal errors (uncaught, or caught and emitted as their message) differ when one is an
+	// invalid-path error and the other is not (used where both sides are gojq itself).
+	InternalKinds bool
 	// InternalMsgEq lets two different output values match when each contains
 	// (at any depth) internal-error-message strings at the same positions.
 	InternalMsgEq bool
@@ -280,6 +293,9 @@ func SameTrace(a, b Trace, opt DiffOpt) (string, bool) {
 		ca, cb := ErrClass(a.Err), ErrClass(b.Err)
 		if ca != cb {
 			return fmt.Sprintf("error class %s (%v) vs %s (%v)", ca, a.Err, cb, b.Err), false
+		}
+		if ca == "internal" && opt.InternalKinds && internalKind(a.Err.Error()) != internalKind(b.Err.Error()) {
+			return fmt.Sprintf("internal error %v vs %v", a.Err, b.Err), false
 		}
 		if ca != "internal" && !sameVal(ErrValue(a.Err), ErrValue(b.Err), opt) {
 			return fmt.Sprintf("%s error value %s vs %s", ca, clip(Canon(ErrValue(a.Err))), clip(Canon(ErrValue(b.Err)))), false
@@ -326,7 +342,7 @@ func sameVal(a, b any, opt DiffOpt) bool {
 		if !ok {
 			return false
 		}
-		return a == bs || IsInternalMsg(a) && IsInternalMsg(bs)
+		return a == bs || IsInternalMsg(a) && IsInternalMsg(bs) && (!opt.InternalKinds || internalKind(a) == internalKind(bs))
 	case []any:
 		bs, ok := b.([]any)
 		if !ok || len(a) != len(bs) {
